@@ -31,6 +31,11 @@ PERF = '"PS00","PS10","PS01","PS11","PE","THD","H1","H5","D","X"'
 
 def run(ctx):
     rnd = random.Random(ctx.seed)
+    # which decoder serves a record is a function of the fed object's OWN code table (spec/Dispatch_MC.tla): design
+    # model-checked with its misplaced-memo variants, behaviours replayed on real parser and dict objects
+    from . import dispatch
+    dispatch.model_check(ctx, ['lazyModuleNames'])
+    dispatch.run(ctx)
     d = 5 if ctx.quick else 6
     ctx.expect_ok(run_tlc('Composite_MC', CFG % (d, '1', VMF), ctx.workdir, name='vmf_d%d' % d, timeout=7200))
     ctx.expect_ok(run_tlc('Composite_MC', CFG % (d, '1', LAUNCH), ctx.workdir, name='launch_d%d' % d, timeout=7200))
